@@ -63,6 +63,7 @@ class TrackInit(Contract):
         me = SObj(source.get_class(TR, "DropletTrack"))
         self.ctx = (run, me, d, t, lay, co.snapshot(run))
         times = [t] if not case.get("mismatch") else [t, t]
+        self.given_times = times
         return dict(self=me, droplets=[d], times=times)
 
     def post(self, a, ret, case):
@@ -79,6 +80,7 @@ class TrackInit(Contract):
                 ("the stored droplet holds the values of the given droplet", co.rec_fields_equal(lay, h.arr, nrec, arrs0,
                                                                                                  z3.Select(arrs0["data"], d.ref), case["dim"])),
                 ("the track is stamped with the given time", to_real(times[0]) == t),
+                ("the track keeps its own list of times (the caller's list is not shared)", times is not self.given_times),
                 ("the given droplet is not modified", co.frame_old_records(run, arrs0, lay))]
 
     def raises(self, a, exc, case):
